@@ -77,7 +77,7 @@ func ops() []opdef {
 	est := func(kind string) func() (*lime.ClientChannel, *lime.ServerChannel) {
 		return func() (*lime.ClientChannel, *lime.ServerChannel) {
 			buf := 0
-			if kind == "tcp" {
+			if kind != "inproc" {
 				buf = 64
 			}
 			ct, stp, _, _ := lib.Transports(kind, buf, nil)
@@ -127,7 +127,7 @@ func ops() []opdef {
 		return func(ctx context.Context) error { _, err := c.Receive(ctx); return err }
 	})
 	// ---- channel sends and command processing: the peer application consumes nothing
-	for _, kind := range []string{"inproc", "tcp"} {
+	for _, kind := range []string{"inproc", "tcp", "ws"} {
 		kind := kind
 		poll := time.Duration(0)
 		if kind == "tcp" {
@@ -174,7 +174,7 @@ func ops() []opdef {
 		})
 		add(kind+"/server.EstablishSession/client-silent", poll, func(x *harness.X) func(context.Context) error {
 			buf := 1
-			if kind == "tcp" {
+			if kind != "inproc" {
 				buf = 64 << 10
 			}
 			_, stp, _, _ := lib.Transports(kind, buf, nil)
@@ -191,8 +191,10 @@ func ops() []opdef {
 			add(kind+"/server.EstablishSession/client-silent-in-"+stage, poll, func(x *harness.X) func(context.Context) error {
 				buf := 1
 				var cfg *lime.TCPConfig
-				if kind == "tcp" {
+				if kind != "inproc" {
 					buf = 64 << 10
+				}
+				if kind == "tcp" {
 					cfg = &lime.TCPConfig{TLSConfig: lib.TLSServerConfig()}
 				}
 				ct, stp, _, _ := lib.Transports(kind, buf, cfg)
@@ -217,7 +219,7 @@ func ops() []opdef {
 		}
 		add(kind+"/client.EstablishSession/server-silent", poll, func(x *harness.X) func(context.Context) error {
 			buf := 1
-			if kind == "tcp" {
+			if kind != "inproc" {
 				buf = 64 << 10
 			}
 			ct, _, _, _ := lib.Transports(kind, buf, nil)
